@@ -1,5 +1,5 @@
 (* C18 — proofs about the task-graph model (Model/C18.v). *)
-From Coq Require Import List Arith Bool Lia.
+From Coq Require Import List Arith NArith Bool Lia.
 Import ListNotations.
 Require Import Verif.Model.C18.
 
@@ -7,8 +7,8 @@ Require Import Verif.Model.C18.
 Lemma memb_In : forall x l, memb x l = true <-> In x l.
 Proof.
   unfold memb. intros. rewrite existsb_exists. split.
-  - intros [y [H1 H2]]. apply Nat.eqb_eq in H2. subst. assumption.
-  - intros H. exists x. split; [assumption | apply Nat.eqb_refl].
+  - intros [y [H1 H2]]. apply N.eqb_eq in H2. subst. assumption.
+  - intros H. exists x. split; [assumption | apply N.eqb_refl].
 Qed.
 
 Lemma inclb_incl : forall a b, inclb a b = true <-> incl a b.
@@ -18,11 +18,11 @@ Proof.
   - apply memb_In. auto.
 Qed.
 
-Lemma upd_same : forall A (f : nat -> A) k v, upd f k v k = v.
-Proof. intros. unfold upd. rewrite Nat.eqb_refl. reflexivity. Qed.
+Lemma upd_same : forall A (f : id -> A) k v, upd f k v k = v.
+Proof. intros. unfold upd. rewrite N.eqb_refl. reflexivity. Qed.
 
-Lemma upd_other : forall A (f : nat -> A) k v k', k' <> k -> upd f k v k' = f k'.
-Proof. intros. unfold upd. apply Nat.eqb_neq in H. rewrite H. reflexivity. Qed.
+Lemma upd_other : forall A (f : id -> A) k v k', k' <> k -> upd f k v k' = f k'.
+Proof. intros. unfold upd. apply N.eqb_neq in H. rewrite H. reflexivity. Qed.
 
 Lemma enqueue_incl_work : forall ys work x, In x work -> In x (enqueue work ys).
 Proof.
@@ -57,7 +57,7 @@ Proof.
   apply in_app_or in H. destruct H as [H|[H|[]]]; [left; assumption | right; left; assumption].
 Qed.
 
-Lemma nodup_snoc : forall (l : list nat) y, NoDup l -> ~ In y l -> NoDup (l ++ [y]).
+Lemma nodup_snoc : forall (l : list id) y, NoDup l -> ~ In y l -> NoDup (l ++ [y]).
 Proof.
   induction l as [|a l IH]; cbn; intros y Hn Hy.
   - constructor; [intros [] | constructor].
@@ -102,10 +102,11 @@ Definition visited_ok (s : state) (work : list task) (u : task) : Prop :=
 
 Record WInv (s : state) (ws : wstate) : Prop := {
   wi_root : In (w_root ws) (w_work ws);
-  wi_idx : w_idx ws <= length (w_work ws);
-  wi_vis : forall j u, j < w_idx ws -> nth_error (w_work ws) j = Some u -> visited_ok s (w_work ws) u;
+  wi_sub : incl (w_seen ws) (w_work ws);
+  wi_vis : forall u, In u (w_seen ws) -> visited_ok s (w_work ws) u;
   wi_closed : w_closed ws = true -> trans s (w_root ws) = true;
   wi_nodup : NoDup (w_work ws);
+  wi_seen_nodup : NoDup (w_seen ws);
   wi_reach : forall u, In u (w_work ws) -> reach s (w_root ws) u
 }.
 
@@ -116,24 +117,18 @@ Record Inv (s : state) : Prop := {
   inv_fns_nodup : NoDup (map fst (fns s))
 }.
 
-(* when the BFS has processed its whole work list, the root is closed and done *)
+(* when the loop has processed its whole work list, the root is closed and done *)
 Lemma bfs_complete :
   forall s ws, (forall t, trans s t = true -> closed_done s t) ->
-    WInv s ws -> w_idx ws = length (w_work ws) -> closed_done s (w_root ws).
+    WInv s ws -> incl (w_work ws) (w_seen ws) -> closed_done s (w_root ws).
 Proof.
   intros s ws Ht Hw Hi.
   assert (forall u y, reach s u y -> In u (w_work ws) -> done s y = true) as H.
   { intros u y Hr. induction Hr as [u | u a y Ha Hr IH]; intros Hin.
-    - destruct (In_nth_error _ _ Hin) as [j Hj].
-      assert (j < w_idx ws) as Hlt.
-      { rewrite Hi. apply nth_error_Some. congruence. }
-      destruct (wi_vis _ _ Hw j u Hlt Hj) as [Htr | [Hd _]].
+    - destruct (wi_vis _ _ Hw u (Hi _ Hin)) as [Htr | [Hd _]].
       + apply (Ht _ Htr). constructor.
       + assumption.
-    - destruct (In_nth_error _ _ Hin) as [j Hj].
-      assert (j < w_idx ws) as Hlt.
-      { rewrite Hi. apply nth_error_Some. congruence. }
-      destruct (wi_vis _ _ Hw j u Hlt Hj) as [Htr | [Hd Hsub]].
+    - destruct (wi_vis _ _ Hw u (Hi _ Hin)) as [Htr | [Hd Hsub]].
       + apply (Ht _ Htr). eapply reach_step; eauto.
       + apply IH. apply Hsub. assumption. }
   intros y Hr. eapply H; [exact Hr|]. apply (wi_root _ _ Hw).
@@ -142,7 +137,7 @@ Qed.
 Lemma init_inv : Inv init.
 Proof.
   constructor; cbn.
-  - intros t Ht y Hr. apply Nat.eqb_eq in Ht. subst.
+  - intros t Ht y Hr. apply N.eqb_eq in Ht. subst.
     inversion Hr; subst; [reflexivity|]. cbn in H. contradiction.
   - intros. discriminate.
   - intros. contradiction.
@@ -160,7 +155,7 @@ Lemma winv_frame :
     WInv s' ws.
 Proof.
   intros s s' ws H Ht Hd He Hm. destruct H. constructor; auto.
-  - intros j u Hj Hn. destruct (wi_vis0 j u Hj Hn) as [A | [A B]].
+  - intros u Hu. destruct (wi_vis0 u Hu) as [A | [A B]].
     + left. auto.
     + right. split; [auto|]. intros v Hv. rewrite (He _ A) in Hv. auto.
   - intros u Hu. specialize (wi_reach0 u Hu).
@@ -188,8 +183,8 @@ Proof.
     assert (forall u, u <> x -> edges s' u = edges s u) as He.
     { intros u Hu. cbn. apply upd_other. assumption. }
     assert (forall t v, In v (edges s t) -> In v (edges s' t)) as Hm.
-    { intros t v Hv. cbn. unfold upd. destruct (Nat.eqb t x) eqn:E; [|assumption].
-      apply Nat.eqb_eq in E. subst. destruct (memb y (edges s x)); [assumption | right; assumption]. }
+    { intros t v Hv. cbn. unfold upd. destruct (N.eqb t x) eqn:E; [|assumption].
+      apply N.eqb_eq in E. subst. destruct (memb y (edges s x)); [assumption | right; assumption]. }
     constructor.
     + intros t Ht z Hr. cbn in Ht. cbn [done s'].
       apply (It t Ht). eapply (reach_add_edge_frame s s' x); eauto.
@@ -203,14 +198,14 @@ Proof.
     apply andb_true_iff in G. destruct G as [G1 G2]. apply negb_true_iff in G1.
     set (s' := mkS (upd (done s) x true) (edges s) (trans s) (waiter s) (fns s) (built s)).
     assert (forall t, done s t = true -> done s' t = true) as Hd.
-    { intros t Ht. cbn. unfold upd. destruct (Nat.eqb t x); auto. }
+    { intros t Ht. cbn. unfold upd. destruct (N.eqb t x); auto. }
     constructor.
     + intros t Ht z Hr. apply Hd. apply (It t Ht).
       clear - Hr. induction Hr; [constructor|]. eapply reach_step; eauto.
     + intros w ws Hw. cbn in Hw. apply (winv_frame s s' ws (Iw _ _ Hw)); auto.
-    + cbn. intros f t Hin Hdn. unfold upd in Hdn. destruct (Nat.eqb t x) eqn:E.
-      * apply Nat.eqb_eq in E. subst. unfold owned_built in G2. rewrite forallb_forall in G2.
-        specialize (G2 _ Hin). cbn in G2. rewrite Nat.eqb_refl in G2. cbn in G2. assumption.
+    + cbn. intros f t Hin Hdn. unfold upd in Hdn. destruct (N.eqb t x) eqn:E.
+      * apply N.eqb_eq in E. subst. unfold owned_built in G2. rewrite forallb_forall in G2.
+        specialize (G2 _ Hin). cbn in G2. rewrite N.eqb_refl in G2. cbn in G2. assumption.
       * eauto.
     + cbn. assumption.
   - (* LWaitStart w x *)
@@ -219,103 +214,101 @@ Proof.
     assert (forall ws, WInv s ws -> WInv s' ws) as F by (intros ws0 H0; apply (winv_frame s s' ws0 H0); auto).
     constructor; cbn; auto.
     { apply (inv_trans_frame s); auto. }
-    intros w' ws Hw. unfold upd in Hw. destruct (Nat.eqb w' w) eqn:E.
+    intros w' ws Hw. unfold upd in Hw. destruct (N.eqb w' w) eqn:E.
     + injection Hw as <-. constructor; cbn.
       * left. reflexivity.
-      * lia.
-      * intros j u Hj. lia.
+      * intros u [].
+      * intros u [].
       * discriminate.
       * constructor; [intros [] | constructor].
+      * constructor.
       * intros u [<-|[]]. constructor.
     + apply F. eauto.
   - (* LWaitFast w x *)
     destruct (waiter s w) as [ws0|] eqn:Ew; [|discriminate].
     repeat (apply andb_true_iff in G; destruct G as [G ?]).
-    apply Nat.eqb_eq in H1. subst x. unfold set_waiter.
+    apply N.eqb_eq in H0. subst x. unfold set_waiter.
     match goal with |- Inv ?st => set (s' := st) end.
     assert (forall ws, WInv s ws -> WInv s' ws) as F by (intros ws1 H1; apply (winv_frame s s' ws1 H1); auto).
     constructor; cbn; auto.
     { apply (inv_trans_frame s); auto. }
-    intros w' ws Hw. unfold upd in Hw. destruct (Nat.eqb w' w) eqn:E.
+    intros w' ws Hw. unfold upd in Hw. destruct (N.eqb w' w) eqn:E.
     + injection Hw as <-. destruct (F _ (Iw _ _ Ew)). constructor; cbn; auto.
     + apply F. eauto.
   - (* LWaitSkip w u *)
     destruct (waiter s w) as [ws0|] eqn:Ew; [|discriminate].
     repeat (apply andb_true_iff in G; destruct G as [G ?]).
     apply negb_true_iff in G.
-    unfold at_task, cur in H0. destruct (nth_error (w_work ws0) (w_idx ws0)) as [u'|] eqn:En; [|discriminate].
-    apply Nat.eqb_eq in H0. subst u'. unfold set_waiter.
+    unfold pending in H0. apply andb_true_iff in H0. destruct H0 as [Hin Hnot].
+    apply memb_In in Hin. apply negb_true_iff in Hnot.
+    assert (~ In u (w_seen ws0)) as Hfresh by (intros Hs; apply memb_In in Hs; congruence).
+    unfold set_waiter.
     match goal with |- Inv ?st => set (s' := st) end.
     assert (forall ws, WInv s ws -> WInv s' ws) as F by (intros ws1 H1; apply (winv_frame s s' ws1 H1); auto).
     constructor; cbn; auto.
     { apply (inv_trans_frame s); auto. }
-    intros w' ws Hw. unfold upd in Hw. destruct (Nat.eqb w' w) eqn:E.
+    intros w' ws Hw. unfold upd in Hw. destruct (N.eqb w' w) eqn:E.
     + injection Hw as <-. destruct (F _ (Iw _ _ Ew)). constructor; cbn; auto.
-      * assert (w_idx ws0 < length (w_work ws0)) by (apply nth_error_Some; congruence). lia.
-      * intros j v Hj Hn. destruct (Nat.eq_dec j (w_idx ws0)) as [->|Hne].
-        -- rewrite En in Hn. injection Hn as <-. left. assumption.
-        -- apply (wi_vis0 j v); [lia | assumption].
+      * intros v [<-|Hv]; auto.
+      * intros v [<-|Hv]; [left; assumption | auto].
       * discriminate.
+      * constructor; assumption.
     + apply F. eauto.
   - (* LWaitObserve w u ys *)
     destruct (waiter s w) as [ws0|] eqn:Ew; [|discriminate].
     repeat (apply andb_true_iff in G; destruct G as [G ?]).
     apply negb_true_iff in G.
-    unfold at_task, cur in H2. destruct (nth_error (w_work ws0) (w_idx ws0)) as [u'|] eqn:En; [|discriminate].
-    apply Nat.eqb_eq in H2. subst u'.
+    unfold pending in H2. apply andb_true_iff in H2. destruct H2 as [Hin Hnot].
+    apply memb_In in Hin. apply negb_true_iff in Hnot.
+    assert (~ In u (w_seen ws0)) as Hfresh by (intros Hs; apply memb_In in Hs; congruence).
     apply inclb_incl in H, H0. unfold set_waiter.
     match goal with |- Inv ?st => set (s' := st) end.
     assert (forall ws, WInv s ws -> WInv s' ws) as F by (intros ws1 H3; apply (winv_frame s s' ws1 H3); auto).
     constructor; cbn; auto.
     { apply (inv_trans_frame s); auto. }
-    intros w' ws Hw. unfold upd in Hw. destruct (Nat.eqb w' w) eqn:E.
+    intros w' ws Hw. unfold upd in Hw. destruct (N.eqb w' w) eqn:E.
     + injection Hw as <-. destruct (F _ (Iw _ _ Ew)).
-      destruct (enqueue_prefix ys (w_work ws0)) as [extra Hex].
-      constructor; cbn [w_root w_work w_idx w_closed].
+      constructor; cbn [w_root w_work w_seen w_closed].
       * apply enqueue_incl_work. assumption.
-      * assert (w_idx ws0 < length (w_work ws0)) by (apply nth_error_Some; congruence).
-        rewrite Hex, app_length. lia.
-      * intros j v Hj Hn.
-        assert (w_idx ws0 < length (w_work ws0)) as Hlt by (apply nth_error_Some; congruence).
-        rewrite Hex in Hn. rewrite nth_error_app1 in Hn by lia.
-        destruct (Nat.eq_dec j (w_idx ws0)) as [->|Hne].
-        -- rewrite En in Hn. injection Hn as <-. right. split; [assumption|].
-           intros v Hv. apply enqueue_incl_ys. apply H. assumption.
-        -- destruct (wi_vis0 j v) as [A|[A B]]; [lia | assumption | left; assumption |].
+      * intros v [<-|Hv]; apply enqueue_incl_work; auto.
+      * intros v [<-|Hv].
+        -- right. split; [assumption|]. intros v Hv. apply enqueue_incl_ys. apply H. assumption.
+        -- destruct (wi_vis0 v Hv) as [A|[A B]]; [left; assumption|].
            right. split; [assumption|]. intros v' Hv'. apply enqueue_incl_work. auto.
       * discriminate.
       * apply enqueue_nodup. assumption.
+      * constructor; assumption.
       * intros v Hv. apply enqueue_only in Hv. destruct Hv as [Hv|Hv]; [auto|].
         apply reach_trans with u.
-        -- apply wi_reach0. eapply nth_error_In; eauto.
+        -- apply wi_reach0. assumption.
         -- eapply reach_step; [apply H0; exact Hv | constructor].
     + apply F. eauto.
   - (* LWaitClosed w x *)
     destruct (waiter s w) as [ws0|] eqn:Ew; [|discriminate].
     repeat (apply andb_true_iff in G; destruct G as [G ?]).
-    apply negb_true_iff in G. apply Nat.eqb_eq in H, H0. subst x.
+    apply negb_true_iff in G. apply inclb_incl in H. apply N.eqb_eq in H0. subst x.
     pose proof (bfs_complete s ws0 It (Iw _ _ Ew) H) as Hc.
     set (s' := mkS (done s) (edges s) (upd (trans s) (w_root ws0) true)
-              (upd (waiter s) w (Some (mkW (w_root ws0) (w_work ws0) (w_idx ws0) true))) (fns s) (built s)).
+              (upd (waiter s) w (Some (mkW (w_root ws0) (w_work ws0) (w_seen ws0) true))) (fns s) (built s)).
     assert (forall t, trans s t = true -> trans s' t = true) as Ht.
-    { intros t Htt. cbn. unfold upd. destruct (Nat.eqb t (w_root ws0)); auto. }
+    { intros t Htt. cbn. unfold upd. destruct (N.eqb t (w_root ws0)); auto. }
     assert (forall t z, reach s' t z -> reach s t z) as Hr.
     { intros t z R. induction R; [constructor|]. eapply reach_step; eauto. }
     constructor.
     + intros t Htt z R. cbn [done s']. cbn in Htt. unfold upd in Htt.
-      destruct (Nat.eqb t (w_root ws0)) eqn:E.
-      * apply Nat.eqb_eq in E. subst. apply Hc. auto.
+      destruct (N.eqb t (w_root ws0)) eqn:E.
+      * apply N.eqb_eq in E. subst. apply Hc. auto.
       * apply (It t Htt). auto.
-    + intros w' ws Hw. cbn in Hw. unfold upd in Hw. destruct (Nat.eqb w' w) eqn:E.
+    + intros w' ws Hw. cbn in Hw. unfold upd in Hw. destruct (N.eqb w' w) eqn:E.
       * injection Hw as <-. destruct (Iw _ _ Ew).
-        assert (WInv s' ws0) as [? ? ? ? ? ?] by (apply (winv_frame s s' ws0 (Iw _ _ Ew)); auto).
-        constructor; cbn [w_root w_work w_idx w_closed]; auto.
+        assert (WInv s' ws0) as [? ? ? ? ? ? ?] by (apply (winv_frame s s' ws0 (Iw _ _ Ew)); auto).
+        constructor; cbn [w_root w_work w_seen w_closed]; auto.
         intros _. cbn. apply upd_same.
       * apply (winv_frame s s' ws (Iw _ _ Hw)); auto.
     + cbn. assumption.
     + cbn. assumption.
   - (* LEnqueue x f *)
-    destruct (Nat.eqb x 0) eqn:E0; [constructor; assumption|].
+    destruct (N.eqb x 0) eqn:E0; [constructor; assumption|].
     cbn in G. apply andb_true_iff in G. destruct G as [G1 G2].
     apply negb_true_iff in G1, G2.
     constructor; cbn; auto.
@@ -324,13 +317,13 @@ Proof.
     + intros f' t [Heq|Hin] Hd; [|eauto]. injection Heq as <- <-. congruence.
     + constructor; [|assumption]. intros Hin. apply in_map_iff in Hin. destruct Hin as [[f' t'] [Hf Hin]].
       cbn in Hf. subst f'.
-      assert (existsb (fun ft : nat * task => Nat.eqb (fst ft) f) (fns s) = true); [|congruence].
-      apply existsb_exists. exists (f, t'). split; [assumption | cbn; apply Nat.eqb_refl].
+      apply not_true_iff_false in G2. apply G2.
+      apply existsb_exists. exists (f, t'). split; [assumption | cbn; apply N.eqb_refl].
   - (* LBuilt f *)
     constructor; cbn; auto.
     + apply (inv_trans_frame s); auto.
     + intros w ws Hw. apply (winv_frame s _ ws (Iw _ _ Hw)); auto.
-    + intros f' t Hin Hd. unfold upd. destruct (Nat.eqb f' f); eauto.
+    + intros f' t Hin Hd. unfold upd. destruct (N.eqb f' f); eauto.
 Qed.
 
 Lemma run_inv : forall tr s s', Inv s -> run s tr = Some s' -> Inv s'.
@@ -350,34 +343,34 @@ Lemma step_done_mono : forall s l s' t, step s l = Some s' -> done s t = true ->
 Proof.
   intros s l s' t Hs Hd. unfold step in Hs. destruct (guard s l); [|discriminate]. injection Hs as <-.
   destruct l; cbn; auto; try (destruct (waiter s w); cbn; auto; fail).
-  - unfold upd. destruct (Nat.eqb t x); auto.
-  - destruct (Nat.eqb x 0); cbn; auto.
+  - unfold upd. destruct (N.eqb t x); auto.
+  - destruct (N.eqb x 0); cbn; auto.
 Qed.
 
 Lemma step_edges_frozen : forall s l s' t, step s l = Some s' -> done s t = true -> edges s' t = edges s t.
 Proof.
   intros s l s' t Hs Hd. unfold step in Hs. destruct (guard s l) eqn:G; [|discriminate]. injection Hs as <-.
   destruct l; cbn; auto; try (destruct (waiter s w); cbn; auto; fail).
-  - cbn in G. apply negb_true_iff in G. unfold upd. destruct (Nat.eqb t x) eqn:E; [|reflexivity].
-    apply Nat.eqb_eq in E. subst. congruence.
-  - destruct (Nat.eqb x 0); cbn; auto.
+  - cbn in G. apply negb_true_iff in G. unfold upd. destruct (N.eqb t x) eqn:E; [|reflexivity].
+    apply N.eqb_eq in E. subst. congruence.
+  - destruct (N.eqb x 0); cbn; auto.
 Qed.
 
 Lemma step_edges_mono : forall s l s' t v, step s l = Some s' -> In v (edges s t) -> In v (edges s' t).
 Proof.
   intros s l s' t v Hs Hd. unfold step in Hs. destruct (guard s l) eqn:G; [|discriminate]. injection Hs as <-.
   destruct l; cbn; auto; try (destruct (waiter s w); cbn; auto; fail).
-  - unfold upd. destruct (Nat.eqb t x) eqn:E; [|assumption]. apply Nat.eqb_eq in E. subst.
+  - unfold upd. destruct (N.eqb t x) eqn:E; [|assumption]. apply N.eqb_eq in E. subst.
     destruct (memb y (edges s x)); [assumption | right; assumption].
-  - destruct (Nat.eqb x 0); cbn; auto.
+  - destruct (N.eqb x 0); cbn; auto.
 Qed.
 
 Lemma step_built_mono : forall s l s' f, step s l = Some s' -> built s f = true -> built s' f = true.
 Proof.
   intros s l s' f Hs Hd. unfold step in Hs. destruct (guard s l); [|discriminate]. injection Hs as <-.
   destruct l; cbn; auto; try (destruct (waiter s w); cbn; auto; fail).
-  - destruct (Nat.eqb x 0); cbn; auto.
-  - unfold upd. destruct (Nat.eqb f f0); auto.
+  - destruct (N.eqb x 0); cbn; auto.
+  - unfold upd. destruct (N.eqb f f0); auto.
 Qed.
 
 Lemma step_returned : forall s l s' w x, step s l = Some s' -> returned s w x -> returned s' w x.
@@ -387,25 +380,25 @@ Proof.
   assert (forall w0 ws', (w0 = w -> False) -> waiter (set_waiter s w0 ws') w = Some ws) as Hother.
   { intros w0 ws' Hne. cbn. rewrite upd_other; [assumption|]. intros ->. apply Hne. reflexivity. }
   destruct l; cbn [guard effect] in *; try (exists ws; cbn; auto; fail).
-  - destruct (Nat.eq_dec w0 w) as [->|Hne]; [rewrite Hw in G; discriminate|].
+  - destruct (N.eq_dec w0 w) as [->|Hne]; [rewrite Hw in G; discriminate|].
     exists ws. rewrite Hother; auto.
   - destruct (waiter s w0) as [ws0|] eqn:E0; [|exists ws; auto].
-    destruct (Nat.eq_dec w0 w) as [->|Hne].
+    destruct (N.eq_dec w0 w) as [->|Hne].
     + rewrite Hw in E0. injection E0 as <-. rewrite Hc in G. discriminate.
     + exists ws. rewrite Hother; auto.
   - destruct (waiter s w0) as [ws0|] eqn:E0; [|exists ws; auto].
-    destruct (Nat.eq_dec w0 w) as [->|Hne].
+    destruct (N.eq_dec w0 w) as [->|Hne].
     + rewrite Hw in E0. injection E0 as <-. rewrite Hc in G. discriminate.
     + exists ws. rewrite Hother; auto.
   - destruct (waiter s w0) as [ws0|] eqn:E0; [|exists ws; auto].
-    destruct (Nat.eq_dec w0 w) as [->|Hne].
+    destruct (N.eq_dec w0 w) as [->|Hne].
     + rewrite Hw in E0. injection E0 as <-. rewrite Hc in G. discriminate.
     + exists ws. rewrite Hother; auto.
   - destruct (waiter s w0) as [ws0|] eqn:E0; [|exists ws; auto].
-    destruct (Nat.eq_dec w0 w) as [->|Hne].
+    destruct (N.eq_dec w0 w) as [->|Hne].
     + rewrite Hw in E0. injection E0 as <-. rewrite Hc in G. discriminate.
     + exists ws. cbn. rewrite upd_other; auto.
-  - destruct (Nat.eqb x0 0); exists ws; cbn; auto.
+  - destruct (N.eqb x0 0); exists ws; cbn; auto.
 Qed.
 
 Lemma run_lift :
@@ -486,27 +479,25 @@ Proof. intros. apply inclb_incl. apply incl_refl. Qed.
 
 Theorem wait_progress_any :
   forall tr s w ws, run init tr = Some s -> waiter s w = Some ws -> w_closed ws = false ->
-    match cur ws with
-    | Some u => done s u = true -> guard s (LWaitObserve w u (edges s u)) = true
-    | None => guard s (LWaitClosed w (w_root ws)) = true
-    end.
+    (forall u, pending ws u = true -> done s u = true -> guard s (LWaitObserve w u (edges s u)) = true) /\
+    ((forall u, pending ws u = false) -> guard s (LWaitClosed w (w_root ws)) = true).
 Proof.
-  intros tr s w ws Hr Hw Hc. pose proof (run_inv _ _ _ init_inv Hr) as HI.
-  pose proof (inv_wait _ HI _ _ Hw) as HW.
-  destruct (cur ws) as [u|] eqn:Ec.
-  - intros Hd. cbn. rewrite Hw, Hc. unfold at_task. rewrite Ec, Nat.eqb_refl, Hd, inclb_refl. reflexivity.
-  - cbn. rewrite Hw, Hc, Nat.eqb_refl. cbn. apply Nat.eqb_eq.
-    unfold cur in Ec. apply nth_error_None in Ec. pose proof (wi_idx _ _ HW). lia.
+  intros tr s w ws Hr Hw Hc. split.
+  - intros u Hp Hd. cbn. rewrite Hw, Hc, Hp, Hd, inclb_refl. reflexivity.
+  - intros Hn. cbn. rewrite Hw, Hc, N.eqb_refl. cbn. apply inclb_incl. intros u Hu.
+    specialize (Hn u). unfold pending in Hn. apply memb_In in Hu. rewrite Hu in Hn. cbn in Hn.
+    apply negb_false_iff in Hn. apply memb_In. assumption.
 Qed.
 
-(* the work list has no duplicates and only holds tasks reachable from the root, so the number of
-   visits of one wait is bounded by the number of reachable tasks *)
+(* the work list has no duplicates and only holds tasks reachable from the root, and each task is
+   processed once, so the number of loop iterations of one wait is bounded by the number of reachable tasks *)
 Theorem wait_work_bounded_any :
   forall tr s w ws univ, run init tr = Some s -> waiter s w = Some ws ->
     (forall u, reach s (w_root ws) u -> In u univ) ->
-    w_idx ws <= length (w_work ws) /\ length (w_work ws) <= length univ.
+    length (w_seen ws) <= length (w_work ws) /\ length (w_work ws) <= length univ.
 Proof.
   intros tr s w ws univ Hr Hw Hu. pose proof (run_inv _ _ _ init_inv Hr) as HI.
-  pose proof (inv_wait _ HI _ _ Hw) as HW. split; [apply (wi_idx _ _ HW)|].
-  apply NoDup_incl_length; [apply (wi_nodup _ _ HW)|]. intros u Hin. apply Hu. apply (wi_reach _ _ HW). assumption.
+  pose proof (inv_wait _ HI _ _ Hw) as HW. split.
+  - apply NoDup_incl_length; [apply (wi_seen_nodup _ _ HW) | apply (wi_sub _ _ HW)].
+  - apply NoDup_incl_length; [apply (wi_nodup _ _ HW)|]. intros u Hin. apply Hu. apply (wi_reach _ _ HW). assumption.
 Qed.
